@@ -47,8 +47,24 @@ func VerifC16Concat() {
 	switch nd.Choice(4) {
 	case 0:
 		n := nd.IntIn(-9, 99)
-		if r, ok := c16EvalStr("n | append: t", map[string]any{"n": n, "t": t}, "append-int"); ok {
+		var nv any = n
+		switch nd.Choice(5) { // the number in several Go integer types
+		case 1:
+			nv = int64(n)
+		case 2:
+			nv = int8(n)
+		case 3:
+			nd.Assume(n >= 0)
+			nv = uint(n)
+		case 4:
+			nd.Assume(n >= 0)
+			nv = uint16(n)
+		}
+		if r, ok := c16EvalStr("n | append: t", map[string]any{"n": nv, "t": t}, "append-int"); ok {
 			nd.Assert(r == itoa(n)+t, "int-receiver-printed")
+		}
+		if r, ok := c16EvalStr("t | append: n", map[string]any{"n": nv, "t": t}, "append-int-arg"); ok {
+			nd.Assert(r == t+itoa(n), "int-argument-printed")
 		}
 	case 1:
 		bv := nd.Bool()
@@ -356,9 +372,14 @@ var c16Ns = []int{-3, -1, 0, 1, 2, 3, 4, 5, 6, 8, 12, 999, 1000, 1001, 2000}
 // builds depends on the length, so it is case-split) and texts.
 func VerifC16Truncate() {
 	txt := c16Texts[nd.Choice(len(c16Texts))]
-	n := c16Ns[nd.Choice(len(c16Ns))]
-	b := map[string]any{"s": txt, "n": n}
 	runes := utf8.RuneCountInString(txt)
+	n := 0
+	if k := nd.Choice(len(c16Ns) + 3); k < len(c16Ns) {
+		n = c16Ns[k]
+	} else {
+		n = runes + k - len(c16Ns) - 1 // exactly at, one below and one above the length in characters
+	}
+	b := map[string]any{"s": txt, "n": n}
 	switch nd.Choice(3) {
 	case 0:
 		if r, ok := c16EvalStr("s | truncate: n", b, "truncate"); ok {
@@ -410,6 +431,22 @@ func VerifC16Truncate() {
 			}
 			if n >= words {
 				nd.Assert(r == txt, "truncatewords-unchanged-when-fits")
+			} else if n >= 1 {
+				// exact reference: everything up to the end of the n-th word, plus "..."
+				k, inw, end := 0, false, len(txt)
+				for i := 0; i < len(txt); i++ {
+					if txt[i] == ' ' {
+						if inw && k == n {
+							end = i
+							break
+						}
+						inw = false
+					} else if !inw {
+						inw = true
+						k++
+					}
+				}
+				nd.Assert(r == txt[:end]+"...", "truncatewords-reference")
 			}
 		}
 	}
